@@ -60,11 +60,21 @@ Record I (s : state) : Prop := mkI {
   i_pan : panicked s = false
 }.
 
+(* the monitor's view of the execution state: a finished execution whose scripted value is 0 panicked *)
+Definition cuex (ph v : nat) : nat := if Nat.eqb ph 2 && Nat.eqb v 0 then 3 else ph.
+
+Lemma end_ex_pan v : end_ex (pan_flag v) = cuex 2 v.
+Proof. unfold end_ex, pan_flag, cuex. destruct (Nat.eqb v 0); reflexivity. Qed.
+Lemma end_val_pan v : end_val (pan_flag v) v = v.
+Proof. unfold end_val, pan_flag. destruct (Nat.eqb v 0) eqn:E; simpl; [apply Nat.eqb_eq in E; auto|reflexivity]. Qed.
+Lemma cuex_ret v : Nat.eqb (cuex 2 v) (S (S (pan_flag v))) = true /\ Nat.leb (S (pan_flag v)) 2 = true.
+Proof. unfold cuex, pan_flag. destruct (Nat.eqb v 0); split; reflexivity. Qed.
+
 Record R (m : sf_mon) (s : state) : Prop := mkR {
   r_cur : forall t, match phase (t_pc (ts s t)) with
                     | None => m_cur m t = None
                     | Some ph => exists i, i < m_now m /\
-                        m_cur m t = Some (mkcur (t_key (ts s t)) i ph (if Nat.eqb ph 2 then t_val (ts s t) else 0))
+                        m_cur m t = Some (mkcur (t_key (ts s t)) i (cuex ph (t_val (ts s t))) (if Nat.eqb ph 2 then t_val (ts s t) else 0))
                     end;
   r_ex : forall t c, own_of (t_pc (ts s t)) = Some c -> phase (t_pc (ts s t)) = Some 2 ->
                      cval s c = t_val (ts s t) /\ In (mkexec (t_val (ts s t)) (t_key (ts s t)) t None) (m_exs m);
@@ -351,7 +361,7 @@ Proof.
     destruct (i_own _ HI t c) as (Oc1 & Oc2 & Oc3 & Oc4); [rewrite Hpc; reflexivity|].
     eexists. split.
     { cbn [trace]. simpl rev. rewrite mon_run_app, Hm. simpl. unfold sf_mon_step. cbn [e_t e_k e_a e_b]. rewrite RCt.
-      cbn [cu_key cu_ex cu_inv]. rewrite Nat.eqb_refl. simpl. reflexivity. }
+      cbn [cu_key cu_ex cu_inv e_c]. rewrite Nat.eqb_refl, end_ex_pan, end_val_pan. simpl. reflexivity. }
     constructor; cbn [lock calls wg cval next open ts trace panicked cre ckey m_now m_cur m_exs].
     + intros u. case_t u t; sp.
       * exists i. split; [lia|reflexivity].
